@@ -232,7 +232,10 @@ def run(ctx):
         for i, rnd in ctx.cases("engines", nengines):
             for d in ([decs[i % 9], decs[(i * 5 + 3) % 9]] if not ctx.thorough else [decs[i % 9]]):
                 with fl.settings.context(decimals=d):
-                    spec = E.gen_engine(rnd, activations=tuple(c08.METHODS), d=d, descriptions=True, infinite=True, max_rules=4, reversed_bounds=True)
+                    spec = E.gen_engine(rnd, activations=tuple(c08.METHODS), d=d, descriptions=True, infinite=True, max_rules=4, reversed_bounds=True, routes=True)
+                    if spec.get("route") in ("fll", "python"):
+                        spec["route"] = "constructors"  # (those routes are the subject here, not a way to get an engine)
+                    ctx.hit("route:" + spec.get("route", "constructors"))
                     spec["description"] = rnd.choice(["", "an engine: demo", "tab\tinside"])
                     if rnd.random() < 0.5:
                         spec = E.exotic(rnd, spec)
@@ -429,6 +432,7 @@ def run(ctx):
         probe.report(ctx)
         ctx.extra["printer_parser_pairs_with_values"] = sorted(f"{c}.{n}" for c, n in mon.pairs)
         reach.report(ctx)
+    ctx.require("route:copy-as-is", "route:deepcopy-as-is")
     ctx.require("workload:components of registered user classes", "workload:Discrete term of several hundred pairs", "event:one importer object used for accepted and rejected texts", "compare:used importer vs new importer", *[f"environment:{e}" for e in ENVIRONMENTS])
     ctx.require("workload:a rule was given a text that the parser rejected", "workload:output variables sharing one defuzzifier text", "workload:more decimals than significant digits")
     ctx.require("hook:FllExporter.engine", "entry:str", "entry:file", "entry:separator", "entry:Op.to_fll", "hook:FllImporter.from_string", "compare:text fixed point", "compare:structure", "compare:normalisation fixed point", "compare:identical outputs", "event:import accepted", "event:re-export after a weight change", "event:re-export under other decimals", "workload:exotic configuration")
